@@ -39,6 +39,26 @@ fn opt_script(s: &str) -> Result<Option<Script>, ()> {
 }
 
 /// criteria from args[1..5]: template text (hex) or `-`, exact, min, max
+/// the same criteria built from the values the setters return (each setter returns a clone of the updated object)
+fn criteria_chained(args: &[String]) -> Option<MatchCriteria> {
+    let mut c = MatchCriteria::default();
+    if args.get(1).map(|t| t != "-").unwrap_or(false) {
+        let t = arg_str(args, 1)?;
+        let tmpl = ScriptTemplate::from_asm_string(&t).ok()?;
+        c = c.set_script_template(&tmpl);
+    }
+    if let Ok(Some(v)) = opt_u64(args.get(4)) {
+        c = c.set_max(v);
+    }
+    if let Ok(Some(v)) = opt_u64(args.get(3)) {
+        c = c.set_min(v);
+    }
+    if let Ok(Some(v)) = opt_u64(args.get(2)) {
+        c = c.set_value(v);
+    }
+    Some(c.clone())
+}
+
 fn criteria(args: &[String]) -> Result<Option<MatchCriteria>, ()> {
     let mut c = MatchCriteria::new();
     match args.get(1) {
@@ -79,9 +99,20 @@ pub fn run(op: &str, args: &[String]) -> Option<String> {
                 Some(t) => t,
                 None => return Some("BADARG".into()),
             };
+            let other = ScriptTemplate::from_asm_string_impl(&t).map(|x| format!("{:?}", x)).ok();
             match ScriptTemplate::from_asm_string(&t) {
-                Ok(tmpl) => format!("OK:{:?}", tmpl),
-                Err(_) => "ERR".into(),
+                Ok(tmpl) => {
+                    if other != Some(format!("{:?}", tmpl)) || format!("{:?}", tmpl.clone()) != format!("{:?}", tmpl) {
+                        return Some("OK:inconsistent".into());
+                    }
+                    format!("OK:{:?}", tmpl)
+                }
+                Err(_) => {
+                    if other.is_some() {
+                        return Some("OK:inconsistent".into());
+                    }
+                    "ERR".into()
+                }
             }
         }
         // script bytes, template text -> Script::matches (and is_match)
@@ -99,7 +130,13 @@ pub fn run(op: &str, args: &[String]) -> Option<String> {
                 Err(_) => return Some("OK:badtemplate".into()),
             };
             let r = s.matches(&tmpl);
-            if r.is_ok() != s.is_match(&tmpl) {
+            let r2 = s.match_impl(&tmpl);
+            let same = match (&r, &r2) {
+                (Ok(a), Ok(b)) => show_matches(a) == show_matches(b),
+                (Err(_), Err(_)) => true,
+                _ => false,
+            };
+            if !same || r.is_ok() != s.is_match(&tmpl) || r.is_ok() != s.test_impl(&tmpl) || r.is_ok() != s.clone().is_match(&tmpl.clone()) {
                 return Some("OK:inconsistent".into());
             }
             match r {
@@ -117,10 +154,22 @@ pub fn run(op: &str, args: &[String]) -> Option<String> {
                 Ok(s) => s,
                 Err(_) => return Some("ERR".into()),
             };
+            // from_script, from_script_impl and from_asm_string(to_asm_string()) must build the same template
+            let via_impl = ScriptTemplate::from_script_impl(&s).map(|x| format!("{:?}", x)).ok();
+            let via_asm = ScriptTemplate::from_asm_string(&s.to_asm_string()).map(|x| format!("{:?}", x)).ok();
             let tmpl = match ScriptTemplate::from_script(&s) {
                 Ok(t) => t,
-                Err(_) => return Some("OK:badtemplate".into()),
+                Err(_) => {
+                    if via_impl.is_some() || via_asm.is_some() {
+                        return Some("OK:inconsistent".into());
+                    }
+                    return Some("OK:badtemplate".into());
+                }
             };
+            let dbg = Some(format!("{:?}", tmpl));
+            if via_impl != dbg || via_asm != dbg || s.matches(&tmpl).is_ok() != s.is_match(&tmpl) {
+                return Some("OK:inconsistent".into());
+            }
             match s.matches(&tmpl) {
                 Ok(ms) => format!("OK:match;{}", show_matches(&ms)),
                 Err(_) => "OK:nomatch".into(),
@@ -128,6 +177,7 @@ pub fn run(op: &str, args: &[String]) -> Option<String> {
         }
         "tx.match_outputs" => {
             let mut tx = Transaction::new(1, 0);
+            let mut bulk: Vec<TxOut> = vec![];
             let l = match args.get(0) {
                 Some(l) => l.clone(),
                 None => return Some("BADARG".into()),
@@ -146,17 +196,36 @@ pub fn run(op: &str, args: &[String]) -> Option<String> {
                         Ok(Some(s)) => s,
                         _ => return Some("BADARG".into()),
                     };
-                    tx.add_output(&TxOut::new(v, &s));
+                    let o = TxOut::new(v, &s);
+                    tx.add_output(&o);
+                    bulk.push(o);
                 }
             }
             match criteria(args) {
                 Err(_) => return Some("BADARG".into()),
                 Ok(None) => "OK:badtemplate".into(),
-                Ok(Some(c)) => show_indices(&tx.match_outputs(&c), tx.match_output(&c)),
+                Ok(Some(c)) => {
+                    let r = show_indices(&tx.match_outputs(&c), tx.match_output(&c));
+                    // bulk-built transaction, cloned transaction, criteria built from the setters' return values
+                    let mut tx2 = Transaction::new(2, 7);
+                    tx2.add_outputs(bulk);
+                    let c2 = match criteria_chained(args) {
+                        Some(c2) => c2,
+                        None => return Some("OK:inconsistent".into()),
+                    };
+                    let txc = tx.clone();
+                    if show_indices(&tx2.match_outputs(&c2), tx2.match_output(&c2)) != r
+                        || show_indices(&txc.match_outputs(&c.clone()), txc.match_output(&c2)) != r
+                    {
+                        return Some("OK:inconsistent".into());
+                    }
+                    r
+                }
             }
         }
         "tx.match_inputs" => {
             let mut tx = Transaction::new(1, 0);
+            let mut bulk: Vec<TxIn> = vec![];
             let l = match args.get(0) {
                 Some(l) => l.clone(),
                 None => return Some("BADARG".into()),
@@ -184,12 +253,28 @@ pub fn run(op: &str, args: &[String]) -> Option<String> {
                         Err(_) => return Some("BADARG".into()),
                     }
                     tx.add_input(&txin);
+                    bulk.push(txin);
                 }
             }
             match criteria(args) {
                 Err(_) => return Some("BADARG".into()),
                 Ok(None) => "OK:badtemplate".into(),
-                Ok(Some(c)) => show_indices(&tx.match_inputs(&c), tx.match_input(&c)),
+                Ok(Some(c)) => {
+                    let r = show_indices(&tx.match_inputs(&c), tx.match_input(&c));
+                    let mut tx2 = Transaction::new(2, 7);
+                    tx2.add_inputs(bulk);
+                    let c2 = match criteria_chained(args) {
+                        Some(c2) => c2,
+                        None => return Some("OK:inconsistent".into()),
+                    };
+                    let txc = tx.clone();
+                    if show_indices(&tx2.match_inputs(&c2), tx2.match_input(&c2)) != r
+                        || show_indices(&txc.match_inputs(&c.clone()), txc.match_input(&c2)) != r
+                    {
+                        return Some("OK:inconsistent".into());
+                    }
+                    r
+                }
             }
         }
         _ => return None,
